@@ -128,11 +128,14 @@ def stepOp (s : St) (f : List String) : Step :=
     match s.tx? (num 1) with
     | none => ⟨s, ["?unknown-tx"]⟩
     | some tx =>
-      if tx.writable then ⟨{ (s.dropTx tx.id) with committed := tx.db, lastHash := none }, ["ok"]⟩
+      if tx.writable then ⟨{ (s.dropTx tx.id) with committed := tx.db, lastHash := none }, ["ok", "err:Io"]⟩
       else ⟨s.dropTx tx.id, ["err:ReadOnlyTx"]⟩
   | some "drop" => ⟨s.dropTx (num 1), ["ok"]⟩
   | some "dbcheck" => ⟨s, ["ok"]⟩
   | some "file" => ⟨s, []⟩
+  | some "fault" => ⟨s, ["ok"]⟩
+  | some "limit" => ⟨s, ["ok"]⟩
+  | some "mark" => ⟨s, ["ok"]⟩
   | some "snap" => ⟨s, ["ok"]⟩
   | some "usefile" => ⟨{ s with txs := [], handles := [] }, ["ok"]⟩
   | some "flstate" => ⟨s, []⟩
